@@ -46,6 +46,21 @@ func (fx *FnCtx) intrinsic(st *State, call *ast.CallExpr) ([]Val, bool) {
 			}
 		}
 	}
+	if o, ok := fx.pkg.Info.Uses[sel.Sel].(*types.Func); ok && o.Pkg() != nil && o.Pkg().Path() == "sort" && o.Name() == "Strings" {
+		// sort.Strings(x): x becomes a sorted rearrangement of itself (same length, same elements)
+		old := fx.eval(st, call.Args[0])
+		nw := fx.sc.Fresh("sorted", old.S)
+		el := fx.sc.elemFn(old.S)
+		nv := Val{nw, old.S, old.Ty}
+		st.assume(fx.sliceWF(nv))
+		st.assume(fmt.Sprintf("(= (len_%s %s) (len_%s %s))", old.S, nw, old.S, old.T))
+		st.assume(fmt.Sprintf("(= (off_%s %s) (off_%s %s))", old.S, nw, old.S, old.T))
+		st.assume(fmt.Sprintf("(forall ((i Int) (j Int)) (! (=> (and (<= 0 i) (< i j) (< j (len_%s %s))) (sle (%s %s i) (%s %s j))) :pattern ((%s %s i) (%s %s j))))", old.S, nw, el, nw, el, nw, el, nw, el, nw))
+		st.assume(fmt.Sprintf("(forall ((i Int)) (! (=> (and (<= 0 i) (< i (len_%s %s))) (exists ((j Int)) (and (<= 0 j) (< j (len_%s %s)) (= (%s %s i) (%s %s j))))) :pattern ((%s %s i))))", old.S, nw, old.S, old.T, el, nw, el, old.T, el, nw))
+		st.assume(fmt.Sprintf("(forall ((j Int)) (! (=> (and (<= 0 j) (< j (len_%s %s))) (exists ((i Int)) (and (<= 0 i) (< i (len_%s %s)) (= (%s %s i) (%s %s j))))) :pattern ((%s %s j))))", old.S, old.T, old.S, nw, el, nw, el, old.T, el, old.T))
+		fx.assign(st, call.Args[0], nv)
+		return nil, true
+	}
 	if s, ok := fx.pkg.Info.Selections[sel]; ok && s.Kind() == types.MethodVal {
 		rt := s.Recv()
 		if p, ok := derefType(rt); ok {
@@ -103,6 +118,9 @@ func (fx *FnCtx) isIntrinsic(call *ast.CallExpr) bool {
 		case "Sprintf", "Errorf", "Printf":
 			return len(call.Args) > 0 && !call.Ellipsis.IsValid()
 		}
+	}
+	if o, ok := fx.pkg.Info.Uses[sel.Sel].(*types.Func); ok && o.Pkg() != nil && o.Pkg().Path() == "sort" && o.Name() == "Strings" {
+		return true
 	}
 	if s, ok := fx.pkg.Info.Selections[sel]; ok && s.Kind() == types.MethodVal {
 		rt := s.Recv()
